@@ -418,8 +418,21 @@ def gen_C10(rng, tier):
         m = rng.choice([E.HDR_MAGIC, rng.getrandbits(32)])
         cases.append("cksum %d %d %d" % (m, rng.choice([0, 4]), rng.getrandbits(rng.choice([8, 16, 32, 32]))))
         dist["cksum_triples"] += 1
+    # verify_checksum on bare basic headers: every length class incl. those whose sum exceeds 2^32 (no memory of that size needed)
+    big = [0, 16, 0x17ADAF20, 0x17ADAF28, 0x17ADAF29, 0x17ADAF2A, 0x17ADAF2B, 0x17ADAF30, 0x17ADAF38, 0x20000000, 0x7FFFFFF8,
+           0x80000000, 0xFFFFFFF0, 0xFFFFFFF8, 0xFFFFFFFF]
+    big += [rng.getrandbits(32) for _ in range(400 if tier == "quick" else 5000)]
+    for length in big:
+        for arch in (0, 4):
+            for magic in (E.HDR_MAGIC, 0, 0xFFFFFFFF, rng.getrandbits(32)):
+                c = E.checksum(magic, arch, length)
+                for ck in (c, (c + 1) & 0xFFFFFFFF, rng.getrandbits(32)):
+                    cases.append("verify " + hx(E.u32(magic) + E.u32(arch) + E.u32(length) + E.u32(ck)))
+                    dist["verify"] = dist.get("verify", 0) + 1
     return cases, dict(
-        rule="hdrwalk: all lengths 0..72 x arch {0,4} x magic {ok, wrong} x checksum {ok, +1, -1, zero} (exhaustive), larger "
+        rule="verify: Multiboot2BasicHeader::verify_checksum on bare 16-byte headers with lengths around 2^32 - magic, 2^31, 2^32 and "
+             "seeded random lengths x arch x magic {spec, 0, 0xFFFFFFFF, random} x checksum {right, +1, random}; "
+             "hdrwalk: all lengths 0..72 x arch {0,4} x magic {ok, wrong} x checksum {ok, +1, -1, zero} (exhaustive), larger "
              "lengths sampled; null pointer; cksum: boundary and seeded random (magic, arch, length) triples. Only the `load` line "
              "and `calc_checksum` are compared for this property. distinct_nontrivial = distinct (domain, model transcript) pairs.",
         dist=dist, exhaustive=True)
@@ -514,7 +527,7 @@ PROPS.update({
                 assumptions=["the memory made valid for load is max(8, declared total size) bytes (the caller's obligation under load's safety contract)"]),
     "C03": dict(gen=gen_C03, configs=["dev", "rel"], judge=judge_projection(["load", "tag", "tags", "module", "modules", "new", "clone", "next"]),
                 both_placements=True, assumptions=["an iterator is not used again after one of its calls panicked"]),
-    "C10": dict(gen=gen_C10, configs=["dev", "rel"], judge=judge_projection(["load", "calc_checksum"]), both_placements=True,
+    "C10": dict(gen=gen_C10, configs=["dev", "rel"], judge=judge_projection(["load", "calc_checksum", "verify_checksum"]), both_placements=True,
                 assumptions=["the architecture word is 0 or 4 (a defined HeaderTagISA value), as the property presupposes"]),
     "C13": dict(gen=gen_C13, configs=["dev", "rel"], judge=judge_C13, both_placements=True, assumptions=[]),
 })
@@ -608,6 +621,25 @@ def mbi_case(region):
     return "mbi " + hx(valid_mem(region))
 
 
+def dirty_padding(region, rng, prob=0.5):
+    """alignment padding behind tags is unspecified memory: fill it with non-zero bytes (with probability prob per tag)"""
+    b = bytearray(region)
+    total = min(len(b), int.from_bytes(b[:4], "little"))
+    off = 8
+    while off + 8 <= total:
+        size = int.from_bytes(b[off + 4:off + 8], "little")
+        if size < 8:
+            break
+        end = off + (size + 7) // 8 * 8
+        if end > total:
+            break
+        if size % 8 and rng.random() < prob:
+            for i in range(off + size, end):
+                b[i] = rng.choice([0xAA, 0xFF, 0x41, rng.randrange(1, 256)])
+        off = end
+    return bytes(b)
+
+
 def gen_mbi_regions(rng, n, dist):
     g = TM.Gen(rng.getrandbits(32))
     out = []
@@ -666,7 +698,13 @@ def gen_C01(rng, tier):
             cases.append(mbi_case(r))
             count(dist, "hand_written")
     n = 4000 if tier == "thorough" else 350
-    regions = gen_mbi_regions(rng, n, dist)
+    regions = [dirty_padding(r, rng) for r in gen_mbi_regions(rng, n, dist)]
+    # indexed framebuffer: every buffer length x colour count around it (the palette must fit behind its 2-byte count)
+    for L in range(0, 26):
+        for ncol in list(range(0, 10)) + [255, 256, 0xFFFF]:
+            buf = (E.u16(ncol) + marker(64, start=L + ncol))[:L]
+            cases.append(mbi_case(E.mbi([E.t_framebuffer(0x1000, 1, 2, 3, 8, 0, buf, 0), E.t_cmdline("NEXT")])))
+            count(dist, "palette_family")
     for r in regions:
         cases.append(mbi_case(r))
         if rng.random() < 0.6:
@@ -806,7 +844,7 @@ def gen_C04(rng, tier):
         tags = [getattr(g, k)() for k in ks]
         if r.random() < 0.2:
             tags.insert(r.randrange(len(tags) + 1), g.custom())
-        cases.append(mbi_case(E.mbi(tags)))
+        cases.append(mbi_case(dirty_padding(E.mbi(tags), rng, 0.7)))
     # all 256 framebuffer type bytes
     for b in range(256):
         cases.append(mbi_case(E.mbi([E.t_framebuffer(0x1000, 1, 2, 3, 8, b, E.fb_rgb(1, 2, 3, 4, 5, 6), 0)])))
@@ -936,6 +974,11 @@ def gen_C18(rng, tier):
                     data = bytearray(marker(L, start=d + cnt))
                     cases.append(mbi_case(E.mbi([E.t_efi_mmap(d, v, bytes(data))])))
                     count(dist, "v%d" % v)
+    # longer maps: the length report must stay exact deep into the iteration, for every stride
+    for d in (40, 48, 56, 64, 72, 80, 96, 128):
+        for cnt in (5, 6, 7, 8, 10, 12, 16):
+            cases.append(mbi_case(E.mbi([E.t_efi_mmap(d, 1, marker(cnt * d, start=d + cnt))])))
+            count(dist, "long_maps")
     for d in (0xFFFFFFFF, 0x80000000, 0x10000):
         cases.append(mbi_case(E.mbi([E.t_efi_mmap(d, 1, bytes(80))])))
     return cases, dict(
